@@ -127,6 +127,39 @@ def sweep(job):
                 if key not in sigs:
                     sigs[key] = {"ev": ev, "req": {"file": job["file"], "method": m, "params": p, "mutated": job.get("text") is not None}, "n": 0}
                 sigs[key]["n"] += 1
+    # histories: query, an in-line edit that needs no re-parse, query again - ranges must address the CURRENT text
+    if job.get("edits"):
+        rnd = random.Random(len(lines))
+        cand = [i for i, L in enumerate(lines) if L.startswith("  ") and re.search(r"[A-Za-z_]\w*\s*$", L) and "!" not in L and "&" not in L]
+        rnd.shuffle(cand)
+        for ln in cand[: job["edits"]]:
+            L = fo.contents_split[ln]
+            col = len(L.rstrip()) - 1
+            for m in ("textDocument/references", "textDocument/documentHighlight", "textDocument/rename"):
+                for phase in (0, 1):
+                    if phase == 1 and m == "textDocument/references":
+                        nlead = len(L) - len(L.lstrip())
+                        adapter.notify(s, c, "textDocument/didChange", {"textDocument": {"uri": uri}, "contentChanges": [
+                            {"range": {"start": {"line": ln, "character": 0}, "end": {"line": ln, "character": nlead}}, "text": ""}]})
+                        L = fo.contents_split[ln]
+                        col = len(L.rstrip()) - 1
+                    p = {"textDocument": {"uri": uri}, "position": {"line": ln, "character": max(col, 0)}, "newName": "zz_new",
+                         "context": {"includeDeclaration": True}}
+                    del c.out[:]
+                    s.handle({"jsonrpc": "2.0", "id": 1, "method": m, "params": p})
+                    nreq += 1
+                    for o in c.out:
+                        if o["t"] == "resp":
+                            cache.clear()
+                            ev = {"k": "resp", "id": "i:1", "tag": "result", "json": True, "ranges": ranges_of(s, uri, o["result"], cache)}
+                        elif o["t"] == "err":
+                            ev = {"k": "resp", "id": "i:1", "tag": "InternalError", "json": True, "ranges": [], "message": norm_msg(o["message"])}
+                        else:
+                            continue
+                        key = (m + "@afterEdit", ev.get("tag"), ev.get("message", ""), json.dumps(ev.get("ranges")))
+                        if key not in sigs:
+                            sigs[key] = {"ev": ev, "req": {"file": job["file"], "method": m, "params": p, "history": "query, delete leading blanks of the line, query"}, "n": 0}
+                        sigs[key]["n"] += 1
     adapter.notify(s, c, "textDocument/didClose", {"textDocument": {"uri": uri}})
     return {"sigs": {json.dumps(k): v for k, v in sigs.items()}, "requests": nreq, "diag": diag, "file": job["file"]}
 
@@ -183,6 +216,7 @@ def main(tier, seed):
     nfiles = 45 if tier == "quick" else len(files)
     colstep = 1 if tier == "quick" else 1
     jobs = [{"root": SRC, "file": f, "colstep": colstep, "methods": METHODS} for f in files[:nfiles]]
+    jobs += [{"root": SRC, "file": f, "colstep": 1000, "methods": [], "lines": [], "edits": 4 if tier == "quick" else 12} for f in files[:nfiles]]
     nmut = 30 if tier == "quick" else 120
     for f in files[:nmut]:
         try:
@@ -194,9 +228,18 @@ def main(tier, seed):
         jobs.append({"root": SRC, "file": f, "text": mutate(t, rnd), "colstep": 3 if tier == "quick" else 1, "methods": METHODS})
     # every bundled intrinsic / keyword as the word under the cursor
     itext, nintr = intrinsic_file()
-    d = adapter.mkws({"intr.f90": itext})
+    gen = {"intr.f90": itext}
+    pad = " " * 60
+    gen["cont1.f90"] = "program p\n  integer :: a\n  integer :: b, &\n" + pad + "a\nend program p\n"
+    gen["cont2.f90"] = "module m\n  integer :: q\ncontains\n  subroutine s()\n    integer :: w, &\n" + pad + "& q\n  end subroutine s\nend module m\n"
+    gen["cont3.f90"] = "subroutine t(x)\n  implicit none\n  integer :: x\n  integer, intent(in) :: y1, &\n" + pad + pad + "y2\nend subroutine t\n"
+    gen["cont4.f90"] = "program u\n  use, &\n" + pad + "nomodule_xyz\n  type(nosuchtype) :: &\n" + pad + "v\nend program u\n"
+    d = adapter.mkws(gen)
     try:
         jobs.append({"root": d, "file": "intr.f90", "colstep": 4 if tier == "quick" else 1, "methods": METHODS})
+        for g in gen:
+            if g.startswith("cont"):
+                jobs.append({"root": d, "file": g, "colstep": 1, "methods": METHODS})
         results = []
         for i, status, val in par.pmap(sweep, jobs, item_timeout=900 if tier == "quick" else 3600):
             if status == "done":
